@@ -413,6 +413,8 @@ static void wakeup_event_process(void *vp, void *arg)
     }
 }
 
+static void wakeup_event_process(void *vp, void *arg);
+
 static void add_waiter_tag(struct cmi_slist_head *head, struct cmb_process *waiter)
 {
     cmb_assert_debug(head != NULL);
@@ -450,7 +452,17 @@ int64_t cmb_process_wait_process(struct cmb_process *awaited)
         /* Yield to the dispatcher and collect the return signal value */
         const int64_t sig = (int64_t)cmi_coroutine_yield(NULL);
 
-        /* Possibly much later */
+        /* Possibly much later. If something else than the end of the awaited
+         * process woke us (a timer, say), we are still registered with it:
+         * deregister, and withdraw a notification that may be on its way, or
+         * it will resume us out of some later, unrelated call. */
+        if (cmi_process_remove_awaitable(me, CMI_PROCESS_AWAITABLE_PROCESS, awaited)) {
+            if (!cmi_slist_is_empty(&(awaited->waiters))) {
+                (void)cmi_process_remove_waiter(awaited, me);
+            }
+        }
+        (void)cmb_event_pattern_cancel(wakeup_event_process, me, CMB_ANY_OBJECT);
+
         return sig;
     }
 }
@@ -458,6 +470,7 @@ int64_t cmb_process_wait_process(struct cmb_process *awaited)
 /* Friendly functions in cmi_event.c, not part of the public interface */
 extern void cmi_event_add_waiter(uint64_t key, struct cmb_process *pp);
 extern bool cmi_event_remove_waiter(uint64_t key, const struct cmb_process *pp);
+extern void cmi_event_cancel_wakeups(const struct cmb_process *pp);
 
 /*
  * cmb_process_wait_event - Wait for an event to occur.
@@ -482,7 +495,14 @@ int64_t cmb_process_wait_event(const uint64_t ev_handle)
     /* Yield to the dispatcher and collect the return signal value */
     const int64_t ret = (int64_t)cmi_coroutine_yield(NULL);
 
-    /* Possibly much later */
+    /* Possibly much later. If something else than the event woke us, we are
+     * still registered as waiting for it: deregister, and withdraw any
+     * notification already on its way (see cmb_process_wait_process). */
+    if (cmi_process_remove_awaitable(me, CMI_PROCESS_AWAITABLE_EVENT, (void *)ev_handle)) {
+        (void)cmi_event_remove_waiter(ev_handle, me);
+    }
+    cmi_event_cancel_wakeups(me);
+
     return ret;
 }
 
